@@ -171,7 +171,7 @@ def run_case(i):
     out = {"i": i, "skip": False, "viol": None, "scope": scope, "n": n, "need": need, "inconclusive": None,
            "events": sum(len(s[1]) for s in streams), "regions": sum(len(s[2]["regions"]) for s in streams),
            "before_start": sum(1 for s in streams if s[2].get("before_start")), "fail_windows": 0,
-           "shortio": 1 if shortio else 0}
+           "shortio": 1 if shortio else 0, "io_fault": 0}
     try:
         def write_all():
             shutil.rmtree(wd, ignore_errors=True)
@@ -204,6 +204,21 @@ def run_case(i):
                     out["viol"] = ("unsortable-silent", "ovnisort failed without saying so", r.brief()); return out
             return out
         before = write_all()
+        if build.flavour == "plain" and i % 8 == 3 and out["regions"]:
+            # a pwrite of the sorted window fails (EIO): ovnisort cannot have sorted the
+            # trace, so it must not report success
+            envf = {"LD_PRELOAD": _CTX["shortio"], "SHORTIO_FAIL": str(1 + i % 3)}
+            rf = emu.run_tool(build, "ovnisort", ["-n", str(n), wd], timeout=60, env=envf)
+            out["io_fault"] = 1
+            if not rf.timeout and rf.rc == 0 and rf.sig == 0:
+                still = False
+                for tid, evs, info in streams:
+                    got = [e.clock for e in obs.decode_file(os.path.join(obs.stream_dir(wd, "L", 1, tid), "stream.obs"))]
+                    still = still or got != sorted(got)
+                if still:
+                    out["viol"] = ("write-failed-but-exit-0", "a pwrite of ovnisort failed with EIO, a stream is still unsorted "
+                                   "and ovnisort exited 0", rf.brief()); return out
+            before = write_all()
         r = emu.run_tool(build, "ovnisort", ["-n", str(n), wd], timeout=60, env=env)
         if r.timeout:
             out["inconclusive"] = "timeout"; return out
